@@ -58,6 +58,7 @@ def run(ctx):
         # RAWCHARS escapes, complete / incomplete / undecodable (regression: `\Uffffffff` raised OverflowError)
         rawpats = ['\\Uffffffff', '\\U00110000', '\\U0010ffff', '\\U80000000', '\\ud800', '\\N{', '\\N{nope}', '\\N{DIGIT ONE}', '\\x4', '\\x', '\\u12',
                    '\\777', '\\1234', '\\U0000004', 'a\\x5b', '[\\x5d]', '\\\\Uffffffff', '\\\\\\Uffffffff', '@(\\Uffffffff)', '\\xff', '\\400']
+        rawpats += ['\\400', '\\777', 'a\\477b', '[\\500]', '\\377', '\\x80', '@(\\600)']
         for _ in range(60 if ctx.quick else 600):
             rawpats.append(''.join(rng.choice(['\\', 'U', 'u', 'x', 'N', '{', '}', 'f', '8', '0', '1', 'a', '/', '*']) for _ in range(rng.randint(2, 14))))
         pats = rawpats + pats
@@ -75,7 +76,7 @@ def run(ctx):
             if ip < len(rawpats):
                 fv |= Fm.RAWCHARS
                 gv |= Gm.RAWCHARS
-            isb = rng.random() < 0.25 and all(ord(c) < 256 for c in p)
+            isb = (rng.random() < 0.25 or (ip < len(rawpats) and ip % 2 == 1)) and all(ord(c) < 256 for c in p)
             P = p.encode('latin-1') if isb else p
             nm = b'a' if isb else 'a'
             calls = [
@@ -114,7 +115,11 @@ def run(ctx):
                                 break
                 except Exception as e:
                     nme = type(e).__name__
-                    if nme in DOCUMENTED:
+                    if nme == 'ValueError':
+                        # only the documented ValueErrors: absolute pattern where forbidden, class/flag mismatch in pathlib
+                        if any(t in str(e) for t in ('relative path pattern', 'cannot be forced to behave', 'empty pattern', 'Unacceptable pattern')):
+                            continue
+                    elif nme in DOCUMENTED:
                         continue
                     ctx.counterexample('%s(%r) raised %s: %s' % (api, P, nme, e),
                                        {'api': api, 'pattern': p, 'bytes': isb, 'flags': fv if api[0] == 'f' else gv})
